@@ -118,21 +118,20 @@ Fixpoint read_dir (fuel : nat) (dir : bytes) (u : ued) : res ued :=
       let r1 :=
         match parent_of fs dir with
         | Some ls =>
-          (fix parents (ls : list bytes) (ppath : bytes) (u : ued) {struct ls} : res ued :=
-             match ls with
-             | [] => ROk u
-             | l :: r =>
-               if isnil l then parents r ppath u
-               else
-                 match realpath fs ppath with         (* filepath.EvalSymlinks *)
-                 | None => RFailed
-                 | Some pp =>
-                   match read_dir f (pathjoin2 pp l) u with
-                   | ROk u' => parents r pp u'
-                   | e => e
-                   end
-                 end
-             end) ls dir u
+          match realpath fs dir with           (* filepath.EvalSymlinks *)
+          | None => RFailed
+          | Some pp =>
+            (fix parents (ls : list bytes) (u : ued) {struct ls} : res ued :=
+               match ls with
+               | [] => ROk u
+               | l :: r =>
+                 if isnil l then parents r u
+                 else match read_dir f (pathjoin2 pp l) u with
+                      | ROk u' => parents r u'
+                      | e => e
+                      end
+               end) ls u
+          end
         | None => ROk u
         end in
       match r1 with
